@@ -182,8 +182,14 @@ type Run struct {
 	UnaryResp  *tpb.Message
 	NewStreamErr error
 
-	RecvStarted atomic.Int64 // receives started by the client receiver (C20)
-	HRecvStarted atomic.Int64
+	RecvStarted  atomic.Int64 // receives (RecvMsg/Header) started by the client (C20)
+	HRecvStarted atomic.Int64 // receives started by the handler
+	CSendDone    atomic.Int64 // client sends that returned nil
+	HSendDone    atomic.Int64 // handler sends that returned nil
+	// Lead records every moment a sender was more than one message ahead of
+	// the receives its peer had started (checked when a send returns).
+	leadMu sync.Mutex
+	Lead   []string
 	// OnHandler, if set, runs inside the handler before its script (probes).
 	OnHandler func(ctx context.Context, r *Run, stream grpc.ServerStream)
 	// OnRecv, if set, is called with every message the client receives (fresh object).
@@ -487,6 +493,9 @@ func (r *Run) runHandlerOps(ctx context.Context, stream grpc.ServerStream) {
 			r.rec(Event{Who: "h", Op: "send", Call: true, Msg: snap})
 			var err error
 			pan := guard(func() { err = stream.SendMsg(msg) })
+			if err == nil && pan == "" {
+				r.checkLead("handler", r.HSendDone.Add(1), r.RecvStarted.Load())
+			}
 			if r.S.MutateAfterSend {
 				mutateMsg(msg)
 			}
@@ -638,6 +647,17 @@ func allStacks() string {
 	}
 }
 
+// checkLead: done = sends completed by this sender (including the one that
+// just returned), started = receives the peer had started when it returned.
+// Reading "started" after the return can only make the bound looser.
+func (r *Run) checkLead(who string, done, started int64) {
+	if done > started+1 {
+		r.leadMu.Lock()
+		r.Lead = append(r.Lead, fmt.Sprintf("%s completed %d sends while its peer had started only %d receives", who, done, started))
+		r.leadMu.Unlock()
+	}
+}
+
 // sendArg returns the object to hand to the library and the snapshot to log.
 // With MutateAfterSend the object is a private deep copy that the sender
 // scribbles over after the send returned.
@@ -751,6 +771,9 @@ func (r *Run) runClientOps(who string, st grpc.ClientStream, ops []Op) {
 			r.rec(Event{Who: who, Op: "send", Call: true, Msg: snap})
 			var err error
 			pan := guard(func() { err = st.SendMsg(msg) })
+			if err == nil && pan == "" {
+				r.checkLead("client", r.CSendDone.Add(1), r.HRecvStarted.Load())
+			}
 			if r.S.MutateAfterSend {
 				mutateMsg(msg)
 			}
